@@ -186,6 +186,9 @@ type fakeInstance struct {
 	id  int
 	mu  sync.Mutex
 	log []string
+
+	stepDelay int64 // ns, atomic
+	performed map[string]int
 }
 
 func (f *fakeInstance) add(s string) { f.mu.Lock(); f.log = append(f.log, s); f.mu.Unlock() }
@@ -198,10 +201,30 @@ func (f *fakeInstance) take() []string {
 }
 func (f *fakeInstance) ID() int            { return f.id }
 func (f *fakeInstance) ParentID() int      { return 0 }
-func (f *fakeInstance) ShutdownAdmin()     { f.add("admin") }
-func (f *fakeInstance) DrainListeners()    { f.add("drain") }
-func (f *fakeInstance) ShutdownLocalConf() { f.add("localconf") }
-func (f *fakeInstance) Shutdown()          { f.add("shutdown") }
+func (f *fakeInstance) ShutdownAdmin()     { f.step("admin") }
+func (f *fakeInstance) DrainListeners()    { f.step("drain") }
+func (f *fakeInstance) ShutdownLocalConf() { f.step("localconf") }
+
+// step takes a moment (real steps do: they close listeners and wait) and is logged when it has been performed.
+func (f *fakeInstance) step(name string) {
+	if d := time.Duration(atomic.LoadInt64(&f.stepDelay)); d > 0 {
+		time.Sleep(d)
+	}
+	f.mu.Lock()
+	f.log = append(f.log, name)
+	if f.performed == nil {
+		f.performed = map[string]int{}
+	}
+	f.performed[name]++
+	f.mu.Unlock()
+}
+
+func (f *fakeInstance) performedCount(name string) int {
+	f.mu.Lock()
+	defer f.mu.Unlock()
+	return f.performed[name]
+}
+func (f *fakeInstance) Shutdown() { f.add("shutdown") }
 
 const (
 	mtAdminReq     = 1
@@ -238,6 +261,8 @@ func c17Sequence(r *ev.Run) {
 		return nil, err
 	}
 	names := map[int]string{mtAdminReq: "admin", mtLocalConfReq: "localconf", mtDrainReq: "drain", mtTerminateReq: "terminate"}
+	acked := map[string]int{}
+	atomic.StoreInt64(&inst.stepDelay, int64(2*time.Millisecond))
 	alphabet := []int{mtAdminReq, mtLocalConfReq, mtDrainReq, mtTerminateReq, 0, 9, 10, 200, 2, 8}
 	// request sends one request on c and returns the reply type (-1: none)
 	request := func(c *net.UnixConn, typ int) int {
@@ -248,6 +273,15 @@ func c17Sequence(r *ev.Run) {
 		res := safeRead(c, 3*time.Second)
 		if res.err != nil || res.pan != nil {
 			return -1
+		}
+		// an acknowledgement means "done": the child goes on (binds the ports, starts serving) as soon as it has it
+		if n, ok := names[typ]; ok && typ != mtTerminateReq && int(res.m.Type) == typ+1 {
+			acked[n]++
+			if got := inst.performedCount(n); got < acked[n] {
+				r.Violation("C17:acknowledged-before-performed:"+n, fmt.Sprintf("the %s step was acknowledged to the child before the old process had performed it (%d acknowledgements, %d performed)", n, acked[n], got),
+					map[string]interface{}{"step": n, "acknowledged": acked[n], "performed_when_the_acknowledgement_arrived": got})
+			}
+			r.Count("acknowledgements_checked_against_performed_steps", 1)
 		}
 		return int(res.m.Type)
 	}
